@@ -18,7 +18,7 @@
 use full_moon::{
     ast::{Ast, Block, Call, Expression, Prefix, Stmt, Suffix},
     node::Node,
-    tokenizer::{TokenReference, TokenType},
+    tokenizer::{Token, TokenReference, TokenType},
 };
 
 use crate::{
@@ -209,8 +209,12 @@ pub(crate) fn sort_requires(ctx: &Context, input_ast: Ast) -> Ast {
                 list.sort_by_key(|key| key.0.clone());
 
                 // Mutate the first element with our leading trivia
+                // It goes in front of the element's own leading trivia (e.g. a comment on the same line), which is kept
                 match list.first_mut() {
                     Some((_, (Stmt::LocalAssignment(local_assignment), _))) => {
+                        let mut leading_trivia: Vec<Token> = leading_trivia;
+                        leading_trivia
+                            .extend(local_assignment.local_token().leading_trivia().cloned());
                         *local_assignment = local_assignment
                             .update_leading_trivia(FormatTriviaType::Replace(leading_trivia))
                     }
